@@ -18,6 +18,9 @@ import vp
 
 def key_of(e, clause):
     cls = "escapes" if e.get("esc") else ("plain" if e.get("plain") else "noescape-othertypes")
+    if clause == "fitskeeps" and cls != "escapes" and e.get("over"):
+        # a fitting reply was cut because Len() over-estimates: keep distinct causes apart (types whose Len() is off > victim)
+        return "truncate/%s:%s:%s" % (clause, cls, e["over"])
     return "truncate/%s:%s" % (clause, cls)
 
 
